@@ -310,6 +310,34 @@ def random_grammar(rng, max_nt=5, max_t=5, max_p=12, max_r=4, meta=False, regex=
 
 
 # ---------------------------------------------------------------------------
+def is_cyclic(g):
+    """A =>+ A for some nonterminal (same definition as Grammar.Cyclic in the TLA+ oracle)."""
+    rules = dict((n, a) for n, a in g["rules"])
+    nullable = set()
+    ch = True
+    while ch:
+        ch = False
+        for n, alts in rules.items():
+            if n not in nullable and any(all(s in nullable for s in a["rhs"]) for a in alts):
+                nullable.add(n)
+                ch = True
+    pairs = set()
+    for n, alts in rules.items():
+        for a in alts:
+            for i, s in enumerate(a["rhs"]):
+                if s in rules and all(x in nullable for j, x in enumerate(a["rhs"]) if j != i):
+                    pairs.add((n, s))
+    ch = True
+    while ch:
+        ch = False
+        for (a, b) in list(pairs):
+            for (c, d) in list(pairs):
+                if b == c and (a, d) not in pairs:
+                    pairs.add((a, d))
+                    ch = True
+    return any(a == b for a, b in pairs)
+
+
 def term_names(g):
     return [t[0] for t in g["terms"]]
 
